@@ -182,6 +182,10 @@ func (w *World) BuildFuncUnit(con *Contract) (u *Unit) {
 	if con.Flags["maypanic"] {
 		u.mayPanic = true
 	}
+	if con.Flags["nonblocking"] {
+		u.nonBlocking = true
+		u.Trusted["sequential semantics for channels in "+con.Target+": no receiver runs concurrently, a send needs room in the queue"] = true
+	}
 	if con.Flags["explicitpanic"] {
 		u.explicitPanicOK = true
 		u.Trusted["explicit panic(...) statements in "+con.Target+" (internal consistency checks) are not proved unreachable"] = true
